@@ -258,6 +258,14 @@ impl Stream for Invalid
 			(format!("fn bad()\n{{\n\tvar i = Inner {{ v: 1, w: Wd {{ lo: 1, hi: 2 }} }};\n\tvar s = Outer {{ inner: i, items: [1, 2], n: 3 }};\n}}"), &[533]),
 			(format!("fn bad()\n{{\n\tvar i = Inner {{ v: 1, w: Wd {{ lo: 1, hi: 2 }} }};\n\tvar s = Outer {{ n: idt(3), inner: i, items: [1, 2] }};\n}}"), &[533]),
 			(format!("fn bad()\n{{\n\tvar a: [2]{t} = [1, 2];\n\tvar m: [2][2]{t} = [[idt(1), 2], a];\n}}"), &[531]),
+			// an exported C function with a body: its view parameter is as
+			// immutable as any other view
+			("extern fn bad(a: []u8)\n{\n\ta[0] = 1;\n}".to_string(), &[530]),
+			("extern fn bad(a: []u8, n: usize)\n{\n\ta[n] = a[0];\n}".to_string(), &[530]),
+			// a constant cannot hold the address of a constant (E360), so that
+			// nothing can be written through it either
+			(format!("const P: &{t} = &K;\n\nfn bad()\n{{\n\tP = 2;\n}}"), &[360, 530]),
+			(format!("const P: &{t} = &K;\n\nfn bad()\n{{\n\tsink_ptr(&P);\n}}"), &[360, 530]),
 		];
 		let (bad, codes) = c.pick(&kinds).clone();
 		// the same shape must be fine when done through a pointer / with `&`
@@ -359,7 +367,7 @@ impl Check for C08
 	}
 	fn rule(&self) -> String
 	{
-		"(a) generated call-heavy programs (functions with value, word-by-value, array-view, struct-view, slice-pointer, pointer, pointer-to-struct and pointer-to-pointer parameters; callees read, write through reference chains and forward parameters to other callees; the final state of every visible primitive is printed), compiled, run and compared with the reference interpreter, in which views and by-value parameters are immutable and only `&` arguments alias caller storage; (b) 34 illegal shapes (writes through value / view / word / constant in 1-3 reference steps, `&` of an immutable parameter or constant, whole-array / view / struct copies by initialisation and assignment, pointer parameters given a bare variable / member, `&` of an array member of a structure view / of a constant array coerced to a slice pointer, whole arrays / structures copied into structure and array literals next to call members) over 11 integer types, each next to a valid function doing the same through pointers; (c) a fixed control program per integer type with a hand-computed expected output. Oracle: (a) stdout and exit status equal the interpreter's, so caller variables change exactly where the call site wrote `&`; (b) rejected with E530 / E531 / E532 / E533 / E513; (c) exact output. Non-trivial (a): a call with an `&` argument and a callee that writes through or forwards a parameter; distinct by source.".into()
+		"(a) generated call-heavy programs (functions with value, word-by-value, array-view, struct-view, slice-pointer, pointer, pointer-to-struct and pointer-to-pointer parameters; callees read, write through reference chains and forward parameters to other callees; the final state of every visible primitive is printed), compiled, run and compared with the reference interpreter, in which views and by-value parameters are immutable and only `&` arguments alias caller storage; (b) 38 illegal shapes (writes through value / view / word / constant in 1-3 reference steps, `&` of an immutable parameter or constant, whole-array / view / struct copies by initialisation and assignment, pointer parameters given a bare variable / member, `&` of an array member of a structure view / of a constant array coerced to a slice pointer, whole arrays / structures copied into structure and array literals next to call members, writes through the view parameter of an `extern fn` with a body, writes through a constant holding the address of a constant) over 11 integer types, each next to a valid function doing the same through pointers; (c) a fixed control program per integer type with a hand-computed expected output. Oracle: (a) stdout and exit status equal the interpreter's, so caller variables change exactly where the call site wrote `&`; (b) rejected with E530 / E531 / E532 / E533 / E513; (c) exact output. Non-trivial (a): a call with an `&` argument and a callee that writes through or forwards a parameter; distinct by source.".into()
 	}
 	fn assumptions(&self) -> Vec<String>
 	{
